@@ -149,13 +149,15 @@ NumericQ(v) ==
 (* keep TLC's 32-bit arithmetic safe: products of big numerators are left  *)
 (* unspecified instead of overflowing                                      *)
 Small(q) == AbsI(q.n) <= 40000 /\ q.d <= 40000
+MaxI(p, r) == IF p >= r THEN p ELSE r
 SafeFor(op, x, y) ==
   IF op \in {"+", "-"}
-  THEN \/ (AbsI(x.n) <= 300000000 /\ AbsI(y.n) <= 300000000 /\ x.d * y.d <= 100)
-       \/ (Small(x) /\ Small(y))
-  ELSE \/ (Small(x) /\ Small(y))
-       \/ (AbsI(x.n) <= 300000000 /\ x.d <= 8 /\ AbsI(y.n) <= 4 /\ y.d <= 4)
-       \/ (AbsI(y.n) <= 300000000 /\ y.d <= 8 /\ AbsI(x.n) <= 4 /\ x.d <= 4)
+  THEN /\ x.d <= 40000 /\ y.d <= 40000
+       /\ AbsI(x.n) <= 1000000000 \div y.d
+       /\ AbsI(y.n) <= 1000000000 \div x.d
+  ELSE LET my == MaxI(MaxI(AbsI(y.n), y.d), 1) IN
+       /\ AbsI(x.n) <= 2000000000 \div my
+       /\ x.d <= 2000000000 \div my
 
 QOp(op, x, y) == CASE op = "+" -> QAdd(x, y) [] op = "-" -> QSub(x, y)
                    [] op = "*" -> QMul(x, y) [] op = "/" -> QDiv(x, y)
@@ -181,8 +183,13 @@ ScalarArith(op, a, b) ==
              ELSE LET r == QOp(op, x, y)
                       kind == ResultKind(op, a, b)
                   IN IF r.d > 100000 THEN EAny     \* beyond what a recorded float can be snapped onto
+                     ELSE IF kind # "num" /\ QFloor(r) >= LastDay + 1 THEN EAny   \* no date after 9999-12-31
                      ELSE IF kind = "num" THEN EVal(NumQ(r))
                      ELSE [k |-> "ser", q |-> r, kind |-> kind]
+
+(* an array of element expectations; if one element is unspecified the real   *)
+(* evaluation may give up on the whole array there                           *)
+ArrE(es) == IF \E i \in 1..Len(es) : es[i].k = "any" THEN EAny ELSE [k |-> "arr", a |-> es]
 
 RECURSIVE ArithExpect(_, _, _)
 ArithExpect(op, a, b) ==
@@ -191,11 +198,11 @@ ArithExpect(op, a, b) ==
   ELSE IF IsUnspec(a) \/ IsUnspec(b) THEN EAny
   ELSE IF IsArr(a) /\ IsArr(b)
        THEN IF Len(a.a) = Len(b.a)
-            THEN [k |-> "arr", a |-> [i \in 1..Len(a.a) |-> ArithExpect(op, a.a[i], b.a[i])]]
+            THEN ArrE([i \in 1..Len(a.a) |-> ArithExpect(op, a.a[i], b.a[i])])
             ELSE IF Len(a.a) = 1 \/ Len(b.a) = 1 THEN EAny   \* one-element arrays: see DESIGN C06
             ELSE EErrs({"#VALUE!"})
-  ELSE IF IsArr(a) THEN [k |-> "arr", a |-> [i \in 1..Len(a.a) |-> ArithExpect(op, a.a[i], b)]]
-  ELSE IF IsArr(b) THEN [k |-> "arr", a |-> [i \in 1..Len(b.a) |-> ArithExpect(op, a, b.a[i])]]
+  ELSE IF IsArr(a) THEN ArrE([i \in 1..Len(a.a) |-> ArithExpect(op, a.a[i], b)])
+  ELSE IF IsArr(b) THEN ArrE([i \in 1..Len(b.a) |-> ArithExpect(op, a, b.a[i])])
   ELSE ScalarArith(op, a, b)
 
 (***************************************************************************)
@@ -237,15 +244,23 @@ SameDeep(x, y) ==
   THEN Len(x.a) = Len(y.a) /\ \A i \in 1..Len(x.a) : SameDeep(x.a[i], y.a[i])
   ELSE SameValue(x, y)
 
+QSame(p, r) == p.n = r.n /\ p.d = r.d       \* both in lowest terms: no cross-multiplication (overflow)
+(* a recorded date-time within one millisecond of a position (the serial is   *)
+(* a binary float: thirds and fifths of a day are not exact)                 *)
+PosNear(p, r) == \/ (p[1] = r[1] /\ p[2] - r[2] \in {-1, 0, 1})
+                 \/ (p[1] = r[1] + 1 /\ p[2] = 0 /\ r[2] = MsPerDay - 1)
+                 \/ (r[1] = p[1] + 1 /\ r[2] = 0 /\ p[2] = MsPerDay - 1)
 SerMatches(e, y) ==
   IF e.q.n < 0
-  THEN (y.t = "err" /\ y.c = "#NUM!") \/ (e.kind = "either" /\ y.t = "num" /\ QEq(QOf(y), e.q))
-  ELSE IF QLt(e.q, QI(FirstExcelDay))
+  THEN (y.t = "err" /\ y.c = "#NUM!") \/ (e.kind = "either" /\ y.t = "num" /\ QSame(QOf(y), e.q))
+  ELSE IF QFloor(e.q) < FirstExcelDay
        THEN y.t = "date" \/ (y.t = "err" /\ y.c = "#NUM!")
-                \/ (e.kind = "either" /\ y.t = "num" /\ QEq(QOf(y), e.q))
-  ELSE \/ (e.kind = "either" /\ y.t = "num" /\ QEq(QOf(y), e.q))
-       \/ (y.t = "date" /\ MsOK(e.q) /\ PosOfDate(y) = PosOfQ(e.q))
-       \/ (y.t = "date" /\ ~MsOK(e.q) /\ DN(y) = QFloor(e.q))
+                \/ (e.kind = "either" /\ y.t = "num" /\ QSame(QOf(y), e.q))
+  ELSE IF QFloor(e.q) >= LastDay + 1
+       THEN TRUE                     \* past 31 December 9999: no such date, nothing is required
+  ELSE \/ (e.kind = "either" /\ y.t = "num" /\ QSame(QOf(y), e.q))
+       \/ (y.t = "date" /\ MsOK(e.q) /\ PosNear(PosOfDate(y), PosOfQ(e.q)))
+       \/ (y.t = "date" /\ ~MsOK(e.q) /\ DN(y) \in {QFloor(e.q), QFloor(e.q) + 1})
 
 RECURSIVE Matches(_, _)
 Matches(e, y) ==
